@@ -73,8 +73,11 @@ type Case struct {
 	// Names[i] / CPNames[c]: the name of instance i / of the CP at position c of a partition in the text
 	// (default n<i> / cp<c>); drawn from pools in which one name is a prefix or substring of another and
 	// in which the alphabetical order differs from the numbering
-	Names     []string `json:",omitempty"`
-	CPNames   []string `json:",omitempty"`
+	Names   []string `json:",omitempty"`
+	CPNames []string `json:",omitempty"`
+	// Notes[i] != "": instance i carries an extra fidef key (`note:<value>`): basm instantiates the fragment
+	// through its template path for that instance (same code: the generated fragments hold no template text)
+	Notes     []string `json:",omitempty"`
 	LinkDef   bool     // emit the `%meta filinkdef` lines
 	SinkFirst bool     // the consumer-side filinkatt line precedes the producer-side one
 	// Probe: do not exclude the recorded defect classes; evaluate and report them with their
@@ -307,7 +310,11 @@ func (c *Case) Source(part [][]int) string {
 		fmt.Fprintf(&b, "%%endfragment\n")
 	}
 	for i, in := range c.Insts {
-		fmt.Fprintf(&b, "%%meta fidef %s fragment:f%d\n", c.instName(i), in.Frag)
+		note := ""
+		if i < len(c.Notes) && c.Notes[i] != "" {
+			note = ", note:" + c.Notes[i]
+		}
+		fmt.Fprintf(&b, "%%meta fidef %s fragment:f%d%s\n", c.instName(i), in.Frag, note)
 	}
 	for k, l := range c.Links() {
 		if c.LinkDef {
@@ -631,6 +638,11 @@ func genCase(t *rapid.T) Case {
 	}
 	c.LinkDef = rapid.Bool().Draw(t, "linkdef")
 	c.SinkFirst = rapid.Bool().Draw(t, "sinkfirst")
+	if rapid.IntRange(0, 3).Draw(t, "notes") == 0 {
+		for i := 0; i < ni; i++ {
+			c.Notes = append(c.Notes, rapid.SampledFrom([]string{"", "", "x", "7"}).Draw(t, "note"))
+		}
+	}
 	if rapid.Bool().Draw(t, "oddnames") {
 		c.Names = permuteStr(instNamePool, rapid.Permutation(seq(len(instNamePool))).Draw(t, "instnames"))[:ni]
 	}
